@@ -10,6 +10,24 @@ theorem wsgi_slots_irrelevant (app : App) (s s' : Slots) (r : Req) : wsgi app s 
   unfold wsgi handle
   rw [reinit_eq, reinit_eq]
 
+/-- after `request.__init__` no extension attribute of an earlier request is left -/
+theorem extAtHandler_eq (s : Slots) (r : Req) (sets : List (Str × Str)) : extAtHandler s r sets = sets := by
+  unfold extAtHandler Slots.initRequest
+  rfl
+
+theorem withProbe_slots_irrelevant (s s' : Slots) (hr : HReq) (req : Req) :
+    withProbe s hr req = withProbe s' hr req := by
+  unfold withProbe
+  simp only [extAtHandler_eq]
+
+theorem withProbe_ids (s : Slots) (hr : HReq) (req : Req) :
+    (withProbe s hr req).id = req.id ∧ (withProbe s hr req).urlRepr = req.urlRepr ∧
+    (withProbe s hr req).json = req.json := by
+  unfold withProbe
+  split
+  · split <;> exact ⟨rfl, rfl, rfl⟩
+  · exact ⟨rfl, rfl, rfl⟩
+
 /-- what of a shared error object a response can show -/
 def SharedErr.core (e : SharedErr) : String × RState × Str := (e.cls, e.resp, e.body)
 
@@ -87,6 +105,15 @@ theorem raiseShared_core (l : List SharedErr) (e : SharedErr) (id : Nat) :
   simp only [Function.comp]
   split <;> rfl
 
+theorem clearShared_core (l : List SharedErr) (e : SharedErr) :
+    (clearShared l e).map SharedErr.core = l.map SharedErr.core := by
+  unfold clearShared
+  rw [List.map_map]
+  apply List.map_congr_left
+  intro x _
+  simp only [Function.comp]
+  split <;> rfl
+
 /-- serving a request never changes the content of the shared error objects -/
 theorem serve_core (app : App) (st : AppState) (hr : HReq) :
     (serve app st hr).1.shared.map SharedErr.core = st.shared.map SharedErr.core := by
@@ -94,7 +121,9 @@ theorem serve_core (app : App) (st : AppState) (hr : HReq) :
   simp only
   split
   · split
-    · exact raiseShared_core _ _ _
+    · split
+      · exact clearShared_core _ _
+      · exact raiseShared_core _ _ _
     · rfl
   · rfl
 
@@ -222,15 +251,84 @@ theorem raiseShared_length (l : List SharedErr) (e : SharedErr) (id : Nat) :
     (raiseShared l e id).length = l.length := by
   unfold raiseShared; simp
 
+theorem clearShared_tb (l : List SharedErr) (e : SharedErr) (h : TbShort l) : TbShort (clearShared l e) := by
+  intro x hx
+  unfold clearShared at hx
+  simp only [List.mem_map] at hx
+  obtain ⟨y, hy, rfl⟩ := hx
+  split
+  · exact Nat.zero_le 1
+  · exact h y hy
+
+theorem clearShared_length (l : List SharedErr) (e : SharedErr) : (clearShared l e).length = l.length := by
+  unfold clearShared; simp
+
 theorem serve_tb (app : App) (st : AppState) (hr : HReq) (h : TbShort st.shared) :
     TbShort (serve app st hr).1.shared ∧ (serve app st hr).1.shared.length = st.shared.length := by
   unfold serve
   simp only
   split
   · split
-    · exact ⟨raiseShared_tb _ _ _ h, raiseShared_length _ _ _⟩
+    · split
+      · exact ⟨clearShared_tb _ _ h, clearShared_length _ _⟩
+      · exact ⟨raiseShared_tb _ _ _ h, raiseShared_length _ _ _⟩
     · exact ⟨h, rfl⟩
   · exact ⟨h, rfl⟩
+
+/-! ### tracebacks of the application's own singletons -/
+
+/-- no application singleton references a request -/
+def AppTbEmpty (l : List (Nat × List Nat)) : Prop := ∀ p ∈ l, p.2 = []
+
+theorem setTb_empty (k : Nat) (l : List (Nat × List Nat)) (h : AppTbEmpty l) : AppTbEmpty (setTb k [] l) := by
+  induction l with
+  | nil => intro p hp; simp only [setTb, List.mem_cons, List.not_mem_nil, or_false] at hp; subst hp; rfl
+  | cons q qs ih =>
+    obtain ⟨k', t⟩ := q
+    unfold setTb
+    split
+    · intro p hp
+      rcases List.mem_cons.mp hp with rfl | hm
+      · rfl
+      · exact h p (List.mem_cons_of_mem _ hm)
+    · intro p hp
+      rcases List.mem_cons.mp hp with rfl | hm
+      · exact h _ (List.mem_cons_self ..)
+      · exact ih (fun x hx => h x (List.mem_cons_of_mem _ hx)) p hm
+
+/-- the singletons stay unreferenced when raised responses reach `_handle`'s `except` clause, or
+when the request raises no singleton -/
+theorem serve_appTb (app : App) (st : AppState) (hr : HReq) (h : AppTbEmpty st.appTb)
+    (hc : reachesExcept app = true ∨ hr.singleton = none) : AppTbEmpty (serve app st hr).1.appTb := by
+  unfold serve
+  simp only
+  cases hs : hr.singleton with
+  | none => exact h
+  | some k =>
+    simp only
+    split
+    · rcases hc with hc | hc
+      · simp only [hc, if_true]; exact setTb_empty k _ h
+      · rw [hs] at hc; cases hc
+    · exact h
+
+theorem foldl_appTb (app : App) (hist : List HReq) (st : AppState) (h : AppTbEmpty st.appTb)
+    (hc : reachesExcept app = true ∨ ∀ hr ∈ hist, hr.singleton = none) :
+    AppTbEmpty (hist.foldl (serve₁ app) st).appTb := by
+  induction hist generalizing st with
+  | nil => exact h
+  | cons x xs ih =>
+    simp only [List.foldl_cons]
+    apply ih
+    · exact serve_appTb app st x h (hc.imp id (fun hh => hh x (List.mem_cons_self ..)))
+    · exact hc.imp id (fun hh hr hm => hh hr (List.mem_cons_of_mem _ hm))
+
+theorem flatMap_empty (l : List (Nat × List Nat)) (h : AppTbEmpty l) : l.flatMap (·.2) = [] := by
+  induction l with
+  | nil => rfl
+  | cons q qs ih =>
+    simp only [List.flatMap_cons, h q (List.mem_cons_self ..), List.nil_append]
+    exact ih (fun x hx => h x (List.mem_cons_of_mem _ hx))
 
 theorem foldl_tb (app : App) (hist : List HReq) (st : AppState) (h : TbShort st.shared) :
     TbShort (hist.foldl (serve₁ app) st).shared ∧
